@@ -306,6 +306,12 @@ def correspondence(ctx):
                     bump(out, "delicate_skipped")
                     continue
                 if not _same_float(v, mat[a][b]):
+                    if a != b and math.isnan(v) != math.isnan(mat[a][b]):
+                        mg = U.validity_margin(calc, seqs[a][1], seqs[b][1], "ACGT" if moltype == "dna" else "ACGU")
+                        if mg is not None and mg < 1e-9:
+                            delicate_any = True
+                            bump(out, "delicate_skipped")
+                            continue
                     bad = bad or (a, b, v, mat[a][b])
                 if a != b and not math.isnan(v) and v != 0:
                     nontriv = True
@@ -453,13 +459,15 @@ def _check_alignment(out, moltype, canon, seqs, calcs, rng=None, relations=True)
                         cols = sum(1 for x, y in zip(seqs[a][1], seqs[b][1]) if x in canon and y in canon)
                         why = "no-shared-columns" if cols == 0 else "log-undefined"
                         # numerically delicate validity decisions (det ~ 0) are not failures
-                        if why == "log-undefined" and calc in ("paralinear", "logdet", "logdet_notk", "tn93"):
+                        mg = U.validity_margin(calc, seqs[a][1], seqs[b][1], canon)
+                        if why == "log-undefined" and mg is not None and mg < 1e-9:
                             bump(out, "oracle", "delicate-validity")
                             continue
                         add_failure(out, "spec", f"{calc}: a distance was returned for a pair where the estimator is undefined ({why})", dict(inp, cell=[a, b]), "invalid (nan)", g, sig=f"est:{why}:{cls}")
                     continue
                 if math.isnan(g):
-                    if calc in ("paralinear", "logdet", "logdet_notk") :
+                    mg = U.validity_margin(calc, seqs[a][1], seqs[b][1], canon)
+                    if mg is not None and mg < 1e-9:
                         bump(out, "oracle", "delicate-validity")
                         continue
                     add_failure(out, "spec", f"{calc}: no distance for a pair where the published formula is defined", dict(inp, cell=[a, b]), e, g, sig=f"est:{calc}:nan:{cls}")
